@@ -106,7 +106,43 @@ func runOracle(rep *lib.Report, b *batch, dir string) map[*fnDump]string {
 	return res
 }
 
+// explore: VERIF_C08_EXPLORE=<program dir> dumps every function of that program's main package
+// (record, oracle answer, SSA) to stdout and exits. Debugging aid, not part of the check.
+func explore(dir string) {
+	prog, pkgs, err := lib.LoadSSA(dir, ssa.InstantiateGenerics, false, ".")
+	if err != nil {
+		fmt.Println("load:", err)
+		return
+	}
+	var state *dataflow.AnalyzerState
+	quiet(func() { state, err = newState(prog, pkgs, false) })
+	if err != nil {
+		fmt.Println("state:", err)
+		return
+	}
+	var fns []*ssa.Function
+	for f := range ssautil.AllFunctions(prog) {
+		if f.Pkg != nil && f.Pkg.Pkg.Name() == "main" && f.Blocks != nil && f.Name() != "init" {
+			fns = append(fns, f)
+		}
+	}
+	sort.Slice(fns, func(i, j int) bool { return fns[i].String() < fns[j].String() })
+	for _, d := range analyzeFunctions(state, fns, "x") {
+		fmt.Printf("==== %s err=%v skipped=%q\n", d.fn.String(), d.err, d.skipped)
+		d.fn.WriteTo(os.Stdout)
+		fmt.Print(d.text)
+		if d.text != "" {
+			out, err := lib.RunOracle("oracle_c08", []byte(d.text))
+			fmt.Println("oracle:", out, err)
+		}
+	}
+}
+
 func main() {
+	if dir := os.Getenv("VERIF_C08_EXPLORE"); dir != "" {
+		explore(dir)
+		return
+	}
 	rep := lib.NewReport(prop)
 	rep.Rule = "one case = one function: real IntraProceduralAnalysis result (final MarkedValues restricted to parameter/free-variable/call-result marks + summary edges) checked against Intra.closed by the Lean oracle; generated functions: random typed statements over 23 types (see harness/cmd/c08/gen.go); distinct = distinct multiset of instruction kinds + block count; non-trivial = at least one origin, one value-computing instruction and one boundary target"
 	dir := workDir("prog")
